@@ -9,7 +9,9 @@ def run(ctx):
             "(expected name E, relation class, subject CN with its ASN.1 string type, subjectAltName list); the grammar derives the certificate names from E: exact / other case / *.label wildcard, "
             "multi-label, non-left-most, partial-label, bare and doubled wildcards, proper suffixes and prefixes on and off label boundaries, parent/child domains, trailing and leading dot, embedded / "
             "trailing / doubled NUL, control and non-ASCII octets at start, middle and end, entries of the wrong GeneralName kind carrying the right text, non-GeneralName tags, e-mail (host and local-part "
-            "case, wildcards), IPv4 literals of every textual length 7-15, 16/5/8-octet iPAddress entries, textual truncations, CN-only certificates in five string types, CN next to every kind of SAN. "
+            "case, wildcards), IPv4 literals of every textual length 7-15, 16/5/8-octet iPAddress entries, textual truncations, CN-only certificates in five string types, CN next to every kind of SAN; "
+            "names of somebody else: GeneralNames (dNSName exact / wildcard / other case, rfc822Name, iPAddress, URI, alone and mixed) spelling E in the issuerAltName extension (emitted behind and before the subjectAltName) and / or in a "
+            "cRLDistributionPoints fullName of a leaf with no SAN and no CN / a foreign CN / a foreign dNSName SAN / a URI-only SAN / e-mail + IP SANs (must not match), and unrelated issuer names of every kind next to a CN = E without SAN or a SAN = E (must still match). "
             "Every SAN list (1-4 entries, fillers of all kinds incl. a NUL-terminated dNSName) is evaluated in EVERY order; each with nameType ANY and the specific types, both e-mail mFlags, and E in other case. "
             "distinct_nontrivial = distinct (relation class, kind of E, list shape, kinds present, |E|).")
     return vflib.std_run(ctx, st, "exploration", rule,
